@@ -92,9 +92,9 @@ def params_s(probe):
     full = st.fixed_dictionaries({}, optional=opt)
     truthy = full.filter(lambda d: any(d.values()))
     if not probe:
-        return truthy
+        return weighted((9, truthy), (1, st.none()))
     falsy = full.filter(lambda d: d and not any(d.values()))
-    return weighted((40, truthy), (1, falsy), (1, st.none()))
+    return weighted((36, truthy), (1, falsy), (4, st.none()))
 
 
 def info_s(probe):
